@@ -52,8 +52,8 @@ const knownCloseKey = "close-drops-queued-response"
 var resetBehind int64
 
 func respByte(conn, seq, i int) byte { return byte('a' + (conn*31+seq*7+i+(i>>10))%26) }
-func fileByte(n, i int) byte        { return byte('A' + (n+i+(i>>12))%26) }
-func reqByte(conn, seq, i int) byte { return byte('0' + (conn*13+seq*3+i+(i>>9))%10) }
+func fileByte(n, i int) byte         { return byte('A' + (n+i+(i>>12))%26) }
+func reqByte(conn, seq, i int) byte  { return byte('0' + (conn*13+seq*3+i+(i>>9))%10) }
 
 var (
 	fileMu sync.Mutex
